@@ -10,7 +10,9 @@ CLAIM = dict(
           "balance theorem eval_expr_balanced); in the outcome semantics 输出 ends block and loops at once, loops consume "
           "结束循环/继续循环 (never leave a loop, never leave a body), 每当 re-tests, first true branch, non-boolean conditions rejected, "
           "遍历 order 1..n / key order. Tie: generated nests of branches x 每当 x 遍历 with break/continue/输出 at every depth, inside and "
-          "outside methods, numbered display markers around every statement, executed by the interpreter and by the model in Coq."),
+          "outside methods, numbered display markers around every statement, conditions and iteration targets observed through a "
+          "displaying identity method, signals taken on some passes only, and iteration histories (a collection copied, one of the two "
+          "changed, both iterated with both loop variables displayed), executed by the interpreter and by the model in Coq."),
     note=semprop.TB + ("non-terminating programs are outside the quantifier (model out-of-fuel runs are skipped and counted); what 遍历 "
                        "visits when the collection it runs over is changed inside the loop is not specified by the property: the model "
                        "iterates over the pairs present when the loop starts and the generator does not change a collection inside its own loop."),
